@@ -710,3 +710,7 @@ CHECKS = [
           rule="every combination of 18 element kinds x bufsize {1,3,0,-1,1.5,2.0} x buffer_input x buffer_output x reset x yield_on_remainder: accepted iff valid, "
                "LenaTypeError/LenaValueError otherwise; accepted ones run a 7-value flow correctly. All cases count as non-trivial."),
 ]
+
+
+from .. import covfuzz  # noqa
+CHECKS.append(covfuzz.check(CHECKS, "harness.props.c16", "history", quick=3000, thorough=80000))
